@@ -20,7 +20,7 @@ from gx.props import _hist
 PROP = "C06"
 PROFILE = {"add_formula_column": 10, "modify_formula": 6, "summary": 4, "add_ref_column": 4, "update_record": 16,
            "bulk_update": 8, "remove_record": 6, "rename_column": 3, "modify_type": 3, "to_formula": 2,
-           "undo_earlier": 2, "malformed": 2, "cyclic_formula": 4, "agg_unsorted": 4, "lookup_chain": 6,
+           "undo_earlier": 2, "malformed": 2, "cyclic_formula": 4, "agg_unsorted": 4, "lookup_chain": 6, "column_cycle": 5,
            # an OLD undo list replayed on a document that has moved on is a raw application of doc actions: it can
            # remove a table under its summary table or a column under its references (a document violating C09);
            # such documents are outside this property's histories, as for C09 / C10 / C11 / C12
